@@ -166,3 +166,46 @@ PROPS["C15"] = dict(
     ],
     min_class_fraction={"gap_with_comment": 0.1, "comment_tight_on_both_sides": 0.03, "two_comments_in_a_gap": 0.02},
 )
+
+
+PROPS["C04"] = dict(
+    pkg="c04",
+    replay_isolated=True,
+    rule=("byte strings up to 64 KiB from (a) raw random bytes, (b) token soups over the language alphabet incl. unterminated quotes/comments, "
+          "NUL, invalid/overlong UTF-8, alias characters and superscripts, (c) byte- and chunk-level mutations (delete, insert token, "
+          "duplicate, swap, truncate, overwrite, hostile byte) of valid programs (typed generator and every expression harvested from the "
+          "repository's tests), (d) hostile templates: nesting of every bracket, keyword, prefix and closure form and every unterminated "
+          "construct, as random sizes and deterministically at 64 B, 1 KiB, 8 KiB and 64 KiB; x 10 parser configurations (value generator "
+          "with/without comments and optimizer, GenerateWithMap, float generator with comfort on/off, bool generator, generic parsers with "
+          "prefix-related operator tables, text aliases, without identifier table). Oracle: totality - the call returns an error value or a "
+          "result; a panic (also on the tokenizer goroutine: the process dies and the recorded pending case is confirmed in isolation) is a "
+          "violation; an input slower than 5 s is re-measured at n, n/2, n/4 bytes and only >60 s or a super-quadratic trend is a violation. "
+          "thorough adds a native coverage-guided fuzz campaign. Non-trivial: the input has >=3 rough tokens; distinct = configuration + input."),
+    assumptions=["a wall-clock limit is never a verdict by itself: slow inputs are re-measured for their scaling trend",
+                 "process death without a reproducing pending case is reported as inconclusive, not as a violation"],
+    jobs=[
+        dict(name="inputs", run="^TestPropInputs$", kind="rapid", shards=16, checks={"quick": 400000, "thorough": 8000000},
+             guard={"quick": 900, "thorough": 7200}),
+        dict(name="templates", run="^TestTemplates$", kind="plain", shards=16, guard={"quick": 900, "thorough": 3600}),
+        dict(name="native_fuzz", kind="fuzz", fuzz="^FuzzParse$", shards=1, tiers=("thorough",), fuzztime={"thorough": "600s"},
+             guard={"thorough": 1200}),
+    ],
+    min_class_fraction={"accepted": 0.03, "invalid_utf8": 0.03, "contains_nul": 0.01, "unterminated_string_or_comment": 0.02},
+)
+
+
+PROPS["C12"] = dict(
+    pkg="c12",
+    rule=("parse part: 1..6 inputs from the C04 generators (token soups, valid programs followed by unread tokens, mutated valid programs: "
+          "weighted toward inputs where parsing stops with tokens unread) are parsed 1..20 times each in one process (value generator "
+          "Generate / GenerateWithMap, generic parser). Invariant over the runtime goroutine profile: after a grace period (poll up to 3 s, "
+          "then the same goroutine id must be present in two snapshots 1 s apart) no goroutine that was started during the case has a frame "
+          "in github.com/hneemann/parser2/... or github.com/hneemann/iterator; a leak is identified by the entry function of the leaked "
+          "goroutine. Non-trivial: at least one input was rejected (parsing stopped early); distinct = configuration + inputs."),
+    assumptions=["goroutines are attributed to the library by their stack frames; goroutines left by earlier failing cases of the same process are excluded by id"],
+    jobs=[
+        dict(name="parse", run="^TestPropParse$", kind="rapid", shards=16, checks={"quick": 50000, "thorough": 2000000},
+             guard={"quick": 900, "thorough": 7200}),
+    ],
+    min_class_fraction={"parse_some_input_rejected": 0.3},
+)
